@@ -12,12 +12,16 @@ SUBPROP = {"/": "C13", "?": "C13", "n": "C13", "N": "C13", "^A": "C13"}
 
 def vi_states(recs):
     out = []
+    pushed = b""
     for r in recs:
+        if r.get("ev") == "push":
+            pushed += bytes.fromhex(r["s"])
         if r.get("ev") == "vi":
             lb = r["bufs"][0]["lb"]
             out.append({"lines": lines_of(lb), "row": r["row"], "off": r["off"], "xcol": r["xcol"],
                         "regs": sorted([x[0], x[1], cps(x[2])] for x in r["regs"] if x[0] in REGNAMES),
-                        "keys": r["keys"], "top": r["top"], "done": r["done"]})
+                        "keys": r["keys"], "top": r["top"], "done": r["done"], "pushed": pushed})
+            pushed = b""
     return out
 
 
@@ -47,6 +51,8 @@ def run_script(ctx, sc):
             break
         g = st[skip + i]
         f = compare(s["exp"], g, s["kind"])
+        if not f and "push" in s and g["pushed"] != txt(s["push"]).encode("utf-8", "surrogateescape"):
+            f = "pushed"        # the keys put back into the input queue by . / @
         res["checked"] = i + 1
         if f and "alt" in s and compare(s["alt"], g, s["kind"]) is None:
             res.update(status="known", wb=s.get("wb", 0), step=i, field=f, kind=s["kind"], sub=s["sub"], keys=txt(s["keys"]), expected=s["exp"],
@@ -55,9 +61,12 @@ def run_script(ctx, sc):
             return res
         if f:
             res.update(status="mismatch", step=i, field=f, kind=s["kind"], sub=s["sub"], keys=txt(s["keys"]),
-                       expected=s["exp"], got={k: g[k] for k in ("lines", "row", "off", "xcol", "regs", "top")},
-                       before=(st[skip + i - 1] if i else None), history=[txt(x["keys"]) for x in sc["steps"][:i + 1]])
+                       expected=dict(s["exp"], pushed=txt(s.get("push", []))),
+                       got={k: (g[k].decode("utf-8", "replace") if k == "pushed" else g[k]) for k in ("lines", "row", "off", "xcol", "regs", "top", "pushed")},
+                       before=(st[skip + i - 1] if i else None), history=[txt(x["keys"]) for x in sc["steps"][:i + 1]],
+                       queued=s.get("queued", 0))
             return res
+    res["final"] = st[-1] if st else None
     if not complete:
         res.update(status="incomplete", stderr=err[-2500:], timed_out=to, step=res["checked"],
                    history=[txt(x["keys"]) for x in sc["steps"][:res["checked"] + 1]])
@@ -82,6 +91,8 @@ def lib_env(ctx):
 
 
 def prop_of(kind, sub, field):
+    if kind in ("dot", "at"):
+        return "C09"
     if kind == "mot":
         return SUBPROP.get(sub, "C07")
     if kind in ("u", "^R"):
@@ -96,6 +107,8 @@ def show(p, f):
         return (p["row"], p["off"])
     if f == "registers":
         return [(a, b, txt(c)) for a, b, c in sorted(p["regs"])]
+    if f == "pushed":
+        return p.get("pushed")
     return p.get("xcol")
 
 
@@ -153,3 +166,61 @@ def vi_check(ctx, own, profile, nscripts, nsteps, rule, assumptions):
                           "the newline of a non-empty line, motions leave the text alone, scalar values only); after every command the "
                           "recorded text, cursor, sticky column and registers were compared with Vi!ViCmd"}
     return ctx.finish("model_checking", cov, assumptions)
+
+
+def repeat_check(ctx, nscripts, nsteps):
+    """C09: (a) the keys pushed back by . / N. / @r / N@r / @@ are N copies of the last change / of the register, (b) every
+    command taken from the queue has the effect Vi!ViCmd gives the same command when typed, (c) the two-run relation: the
+    script and its expansion (every . and @ replaced by the keys it stands for) end in the same text, cursor and registers."""
+    scripts = gen(ctx, "repeat", nscripts // 2, nsteps, ai=1) + gen(ctx, "repeat", nscripts - nscripts // 2, nsteps, ai=0)
+    nthm = 0
+    for sc in scripts:
+        for s in sc["steps"]:
+            nthm += 1
+            if not s["thm"]:
+                raise Infra("Vi.tla violates its own properties at seed %s" % sc["seed"])
+    ctx.build()
+    with ThreadPoolExecutor(NCPU) as ex:
+        results = list(ex.map(lambda s: run_script(ctx, s), scripts))
+        # the expansion: the same steps with what was queued typed instead
+        expanded = [dict(sc, steps=[dict(s, keys=s["xkeys"]) for s in sc["steps"] if s["kind"] not in ("dot", "at")]) for sc in scripts]
+        results2 = list(ex.map(lambda s: run_script(ctx, s), expanded))
+    st = dict(scripts=len(results), commands=0, repeats=0, queued=0, pairs_compared=0, mismatch_own=0, mismatch_other=0, incomplete=0)
+    for sc, r, r2 in zip(scripts, results, results2):
+        st["commands"] += r["checked"]
+        for s in sc["steps"][:r["checked"]]:
+            st["repeats"] += s["kind"] in ("dot", "at")
+            st["queued"] += s.get("queued", 0)
+        if r["status"] == "mismatch":
+            own = r["kind"] in ("dot", "at") or r.get("queued")
+            if own:
+                st["mismatch_own"] += 1
+                ctx.violation("%s %r (%s, step %d of seed %s, history %s): %s expected %s, recorded %s" %
+                              ("taken from the queue:" if r.get("queued") else "after", r["keys"] or "(queued keys)", r["sub"], r["step"], r["seed"],
+                               [h for h in r["history"][-6:-1] if h], r["field"], show(r["expected"], r["field"]), show(r["got"], r["field"])),
+                              {k: r[k] for k in ("seed", "step", "field", "kind", "sub", "keys", "history", "expected", "got", "queued")},
+                              {"kind": "repeat", "field": r["field"], "cmd": r["sub"], "queued": r.get("queued", 0)})
+            else:
+                st["mismatch_other"] += 1
+                if len(ctx.notes) < 10:
+                    ctx.notes.append("divergence attributed to %s: seed %s %r: %s" % (prop_of(r["kind"], r["sub"], None), r["seed"], r["keys"], r["field"]))
+        elif r["status"] == "incomplete" or r2["status"] == "incomplete":
+            st["incomplete"] += 1
+        elif r["status"] == "ok" and r2["status"] == "ok" and r["final"] and r2["final"]:
+            st["pairs_compared"] += 1
+            a, b = r["final"], r2["final"]
+            for f in ("lines", "row", "off", "regs"):
+                if a[f] != b[f]:
+                    st["mismatch_own"] += 1
+                    ctx.violation("seed %s: the script with . / @ and the same script with the keys typed out end differently in %s" % (sc["seed"], f),
+                                  {"seed": sc["seed"], "field": f, "typed": [txt(s["keys"]) for s in sc["steps"]],
+                                   "expanded": [txt(s["xkeys"]) for s in sc["steps"]], "end_with_repeat": {k: a[k] for k in ("lines", "row", "off", "regs")},
+                                   "end_expanded": {k: b[k] for k in ("lines", "row", "off", "regs")}}, {"kind": "two-run", "field": f})
+                    break
+    samples = [{"seed": sc["seed"], "keys": [txt(s["keys"]) or ("<queued: %s>" % txt(s["xkeys"])) for s in sc["steps"][:16]]} for sc in scripts[:2]]
+    cov = {"states": nthm, "transitions": nthm, "traces_validated_against_impl": len(results) + len(results2), "samples": samples,
+           "evaluations": st["commands"], "distinct_nontrivial": st["repeats"] + st["queued"], "stats": st,
+           "rule": "scripts with . N. @a N@a @@ after every kind of change (operators with counts and registers, inserts with multi-byte "
+                   "text and control keys, changes that prompt for text); non-trivial = a repeat command or a command taken from the queue"}
+    return ctx.finish("model_checking", cov, ["a . or @ inside an executing macro is not generated (its keys are appended after the rest of the macro)",
+                                             "register a is reserved for the macro in these scripts"])
